@@ -3,6 +3,7 @@
 -/
 import VProofs.Lemmas.Pure
 import VProofs.Lemmas.PandasL
+import VProofs.Obligations.PandasMutex
 namespace V.C02
 open V
 
@@ -74,5 +75,41 @@ theorem C02_mutex_generic_pandas (c : Column) (t₁ t₂ : Ty) (h₁ : t₁ ∈ 
     ¬ (containsB t₁ c = true ∧ containsB t₂ c = true) := by
   rintro ⟨a, b⟩
   exact dtype_partition c.dtype t₁ t₂ h₁ h₂ hne ⟨contains_dtypePred t₁ h₁ c a, contains_dtypePred t₂ h₂ c b⟩
+
+end V.C02
+
+namespace V.C02
+open V V.Gen V.Pd
+
+/-- **C02_mutex_object_pandas**: at `Object` no two of the ten outgoing relations (String, Date, Time, URL, UUID,
+EmailAddress, Path, Geometry, IPAddress by membership; Boolean by its inference test) accept a column with a
+value, given that no cell has two of the class properties at once (`HeadExcl`, facts about CPython classes) -/
+theorem C02_mutex_object_pandas (c : Column) (hv : HasValue c) (hdc : DtypeCells c)
+    (hex : ∀ x ∈ c.cells, x.null = false → HeadExcl x)
+    (d₁ d₂ : Ty) (h₁ : d₁ ∈ objChildren) (h₂ : d₂ ∈ objChildren) (hne : d₁ ≠ d₂) :
+    ¬ (acceptsObj d₁ c ∧ acceptsObj d₂ c) := mutex_object c hv hdc hex d₁ d₂ h₁ h₂ hne
+
+/-- **C02_mutex_string_pandas**: at `String` no two of the ten inference relations accept, *given* that the
+element parsers and `pd.to_datetime` accept disjoint sets of strings (`StrExcl`, `FloatComplex`, `DtExcl`) -/
+theorem C02_mutex_string_pandas (o : ColOracle) (c : Column) (hv : HasValue c) (hsn : StrNotNull c)
+    (hex : ∀ x ∈ c.cells, ∀ f, x.str = some f → StrExcl f ∧ FloatComplex f) (hdt : DtExcl o c)
+    (d₁ d₂ : Ty) (h₁ : d₁ ∈ .DateTime :: strParsers) (h₂ : d₂ ∈ .DateTime :: strParsers) (hne : d₁ ≠ d₂) :
+    ¬ (acceptsStr o d₁ c ∧ acceptsStr o d₂ c) := mutex_string o c hv hsn hex hdt d₁ d₂ h₁ h₂ hne
+
+/-- the parser-disjointness hypothesis is *false* for particular strings — known finding F10: for the facts of
+`'1'*32` (a float literal and a UUID) both String→Float and String→UUID accept the one-row column -/
+def factsF10 : StrFacts :=
+  { boolKey := none, floatVal := .ok (.fin 11111111111111111111111111111111 0), firstIsZero := false, hasJI := false,
+    complexVal := .ok (.fin 11111111111111111111111111111111 0, .fin 0 0), wkt := .raises "GEOSException|ShapelyError",
+    ip := .raises "ValueError", winAbs := .ok (false, "1"), posixAbs := .ok (false, "1"), url := .ok (false, false, "1"),
+    uuid := .ok "11111111-1111-1111-1111-111111111111", email := .raises "TypeError", truthy := true }
+
+theorem C02_witness_F10 :
+    let x : Cell := { Cell.blank with cls := "str", isStr := true, strEq := .ok true, str := some factsF10 }
+    let c : Column := ⟨.object, [x], ["0"], "None"⟩
+    stringIsFloat c = .ok true ∧ stringIsUuid c = .ok true ∧ ¬ StrExcl factsF10 := by
+  refine ⟨by rfl, by rfl, ?_⟩
+  intro h
+  exact h .Float (by simp [strParsers]) .UUID (by simp [strParsers]) (by decide) (by simp) (by simp) ⟨rfl, rfl⟩
 
 end V.C02
